@@ -266,3 +266,177 @@ def fmt_atom(a: Atom) -> str:
     if a[0] in ('eq', 'ne', 'isinst'):
         return f'{a[0]}({a[1]}, {a[2]})'
     return f'{a[0]}({a[1]})'
+
+
+# ---------------------------------------------------------------------- value resolution for shape comparisons
+class Resolver:
+    """Expands single-assignment locals so that ``x = f(a); g(x)`` and ``g(f(a))`` compare equal.
+
+    A local qualifies when it is assigned exactly once in the function (plain ``name = value``), is not a parameter, a
+    loop / with / except target, and is not augmented anywhere.  Expansion is for comparing *shapes* (which value
+    reaches which place), never for evaluation order.
+    """
+
+    def __init__(self, func: FuncInfo):
+        self.func = func
+        counts: Dict[str, int] = {}
+        vals: Dict[str, ast.expr] = {}
+        params: Set[str] = set()
+        if not isinstance(func.node, ast.Lambda):
+            a = func.node.args
+            params = {x.arg for x in a.posonlyargs + a.args + a.kwonlyargs}
+            if a.vararg:
+                params.add(a.vararg.arg)
+            if a.kwarg:
+                params.add(a.kwarg.arg)
+        for s in func.body:
+            for n in walk_shallow(s):
+                tg: List[ast.AST] = []
+                single = False
+                if isinstance(n, ast.Assign):
+                    tg = list(n.targets)
+                    single = len(n.targets) == 1 and isinstance(n.targets[0], ast.Name)
+                elif isinstance(n, (ast.AugAssign,)):
+                    tg = [n.target]
+                elif isinstance(n, ast.AnnAssign):
+                    tg = [n.target]
+                    single = isinstance(n.target, ast.Name) and n.value is not None
+                elif isinstance(n, (ast.For, ast.AsyncFor)):
+                    tg = [n.target]
+                elif isinstance(n, ast.ExceptHandler) and n.name:
+                    counts[n.name] = counts.get(n.name, 0) + 2
+                elif isinstance(n, (ast.With, ast.AsyncWith)):
+                    tg = [i.optional_vars for i in n.items if i.optional_vars is not None]
+                elif isinstance(n, ast.comprehension):
+                    tg = [n.target]
+                for t in tg:
+                    for x in ast.walk(t):
+                        if isinstance(x, ast.Name) and isinstance(x.ctx, (ast.Store, ast.Del)):
+                            counts[x.id] = counts.get(x.id, 0) + (1 if single else 2)
+                            if single:
+                                vals[x.id] = n.value  # type: ignore[union-attr]
+        self.vals = {k: v for k, v in vals.items() if counts.get(k) == 1 and k not in params
+                     and not any(isinstance(x, (ast.Await, ast.Yield, ast.YieldFrom)) for x in ast.walk(v))}
+
+    def expand(self, e: Optional[ast.AST], depth: int = 4) -> Optional[ast.AST]:
+        if e is None or depth == 0:
+            return e
+        res = self
+
+        class T(ast.NodeTransformer):
+            def visit_Name(self, node: ast.Name):
+                if isinstance(node.ctx, ast.Load) and node.id in res.vals:
+                    return res.expand(copy.deepcopy(strip_cast(res.vals[node.id])), depth - 1)
+                return node
+
+            def visit_Lambda(self, node):
+                return node
+
+        import copy
+        return T().visit(copy.deepcopy(strip_cast(e)) if isinstance(e, ast.expr) else copy.deepcopy(e))
+
+    def text(self, e: Optional[ast.AST]) -> str:
+        return norm(self.expand(e))
+
+
+def rnorm(func: FuncInfo, e: Optional[ast.AST]) -> str:
+    return Resolver(func).text(e)
+
+
+# ---------------------------------------------------------------------- site-centric dispatch tables
+def pinned(fs: FrozenSet[Atom]) -> Dict[str, Set[str]]:
+    """subject key -> the constants / classes the facts pin it to (``eq`` atoms and positive ``isinst`` atoms)."""
+    out: Dict[str, Set[str]] = {}
+    for a in fs:
+        if a[0] == 'eq':
+            out.setdefault(a[1], set()).add(a[2])
+        elif a[0] == 'isinst':
+            out.setdefault('isinstance:' + a[1], set()).update(a[2].split('|'))
+    return out
+
+
+def dispatch_sites(ff: FuncFacts, site_pred: Callable[[ast.Call], bool]) -> List[Tuple[Node, ast.Call, Dict[str, Set[str]]]]:
+    """Every call satisfying ``site_pred`` in the analysed function with what the must-facts at the site pin down.
+    Works for if/elif ladders, early-return sequences and match-like nests alike."""
+    out = []
+    for n, c in ff.cfg.call_nodes(site_pred):
+        if not ff.reachable(n):
+            continue
+        out.append((n, c, pinned(ff.at_call(n, c))))
+    # one entry per AST call (finally copies merged by intersection of what is pinned)
+    merged: Dict[int, Tuple[Node, ast.Call, Dict[str, Set[str]]]] = {}
+    for n, c, p in out:
+        if id(c) in merged:
+            old = merged[id(c)][2]
+            merged[id(c)] = (n, c, {k: v & p.get(k, set()) for k, v in old.items() if k in p})
+        else:
+            merged[id(c)] = (n, c, p)
+    return list(merged.values())
+
+
+# ---------------------------------------------------------------------- "the exception being handled" as a value
+def enclosing_handlers(func: FuncInfo, node: ast.AST) -> List[ast.ExceptHandler]:
+    out: List[ast.ExceptHandler] = []
+    for h in [x for x in ast.walk(func.node) if isinstance(x, ast.ExceptHandler)]:
+        if any(y is node for s in h.body for y in ast.walk(s)):
+            out.append(h)
+    return out
+
+
+def caught_exception_args(func: FuncInfo, call: ast.Call, args: Sequence[ast.expr]) -> bool:
+    """Do ``args`` denote (the exception being handled, its traceback)?  Accepted spellings:
+    ``*sys.exc_info()[1:]`` · ``sys.exc_info()[1], sys.exc_info()[2]`` (also through a local) · ``e, e.__traceback__``
+    with ``e`` the name bound by an enclosing ``except ... as e``."""
+    res = Resolver(func)
+    texts = [res.text(a.value if isinstance(a, ast.Starred) else a) for a in args]
+    starred = [isinstance(a, ast.Starred) for a in args]
+    if len(args) == 1 and starred[0] and texts[0] == 'sys.exc_info()[1:]':
+        return True
+    if len(args) == 2 and not any(starred):
+        if texts == ['sys.exc_info()[1]', 'sys.exc_info()[2]']:
+            return True
+        names = [h.name for h in enclosing_handlers(func, call) if h.name]
+        for nm in names:
+            if texts == [nm, f'{nm}.__traceback__']:
+                return True
+    return False
+
+
+def resolve_callable_ref(ctx: Ctx, func: FuncInfo, e: ast.expr, depth: int = 3) -> List[Tuple[FuncInfo, List[ast.expr]]]:
+    """Functions a *value* expression may denote, with the positional arguments already bound by functools.partial:
+    ``name`` of a nested def, ``self.m``, ``functools.partial(x, a, b)``, a local holding one of these."""
+    e = strip_cast(e)
+    if depth == 0:
+        return []
+    if isinstance(e, ast.Call) and norm(e.func) in ('functools.partial', 'partial') and e.args:
+        return [(f, bound + list(e.args[1:])) for f, bound in resolve_callable_ref(ctx, func, e.args[0], depth - 1)]
+    if isinstance(e, ast.Name):
+        nested = ctx.calls._find_nested(func, e.id)
+        if nested is not None:
+            return [(nested, [])]
+        out: List[Tuple[FuncInfo, List[ast.expr]]] = []
+        for v in ctx.calls._local_assigned_value(func, e.id):
+            out.extend(resolve_callable_ref(ctx, func, v, depth - 1))
+        return out
+    if isinstance(e, ast.Attribute):
+        t = ctx.calls.resolve_call(func, ast.Call(func=e, args=[], keywords=[]))
+        return [(g, []) for g in t.funcs if not t.unknown]
+    return []
+
+
+def conditional_values(ff: FuncFacts, var: str) -> List[Tuple[FrozenSet[Atom], ast.expr]]:
+    """Every value assigned to local ``var`` with the facts under which it is assigned; a conditional expression yields
+    one entry per branch (its test added to the facts).  ``x = a if c else b`` and ``if c: x = a else: x = b`` agree."""
+    out: List[Tuple[FrozenSet[Atom], ast.expr]] = []
+    for n in ff.cfg.nodes:
+        if n.kind == 'stmt' and isinstance(n.ast, (ast.Assign, ast.AnnAssign)):
+            tg = n.ast.targets if isinstance(n.ast, ast.Assign) else [n.ast.target]
+            if len(tg) == 1 and norm(tg[0]) == var and n.ast.value is not None and ff.reachable(n):
+                base = ff.at(n)
+                v = strip_cast(n.ast.value)
+                if isinstance(v, ast.IfExp):
+                    out.append((base | frozenset(ff.cond_atoms(v.test, True)), v.body))
+                    out.append((base | frozenset(ff.cond_atoms(v.test, False)), v.orelse))
+                else:
+                    out.append((base, v))
+    return out
